@@ -2,12 +2,12 @@ CONSTANTS
   Procs = {1, 2}
   Fids = {0, 1, 2, 3}
   InitBound = {0, 1}
-  OpSet <- OpsSmall
+  OpSet <- OpsCreate
   FixAttach = TRUE
   Literal = TRUE
-  FixDel = FALSE
-  CreateNils = TRUE
+  FixDel = TRUE
+  CreateNils = FALSE
 SPECIFICATION Spec
-INVARIANTS Linearizable
+INVARIANTS MutualExclusion NoUseAfterRelease NoDeadlock NoLockLeft ReturnedHoldNothing Linearizable
 PROPERTIES EveryOpReturns
 CHECK_DEADLOCK FALSE
